@@ -61,7 +61,8 @@ def run(bid, props):
     try:
         rc, out = apply_patch(wt, os.path.join(d, "patch.diff"))
         if rc:
-            print("patch does not apply:", out); return 2
+            print("patch does not apply:", out)
+            print(bid, "PATCH-DOES-NOT-APPLY (re-port it to the current HEAD)"); return 2
         for p in props:
             t0 = time.time()
             rc, out = sh(["python3", os.path.join(VERIF, "check.py"), p, "--tier", "quick"], cwd=VERIF,
